@@ -328,7 +328,21 @@ func exactDir(rng *rand.Rand) C3 {
 		}
 		d := model3d.NewCoord3DArray(arr)
 		if d.Norm() > 0 {
-			return d.Scale(pick(rng, []float64{1, 1, 1, 0.5, 2, 0.125, 8}))
+			d = d.Scale(pick(rng, []float64{1, 1, 1, 0.5, 2, 0.125, 8}))
+			if rng.Intn(3) == 0 {
+				// zero components of either sign, as a negated axis vector has them (1/-0 = -Inf)
+				nz := math.Copysign(0, -1)
+				if d.X == 0 && rng.Intn(2) == 0 {
+					d.X = nz
+				}
+				if d.Y == 0 && rng.Intn(2) == 0 {
+					d.Y = nz
+				}
+				if d.Z == 0 && rng.Intn(2) == 0 {
+					d.Z = nz
+				}
+			}
+			return d
 		}
 	}
 }
